@@ -53,16 +53,17 @@ def same_prefix(ctx, rule):
     roles = components(ctx, rule)
     if roles is None:
         return
-    pfx = [l for l in sorted(b.var_names) if any(sh.startswith("Option::map_or(utils::find_common_prefix_of_sorted_vec(") for sh, _, _ in q.def_shapes(b, l, {}))]
+    pfx = [l for l in sorted(b.var_names) if (q.value_shape(b, l, {}) or "").startswith("Option::map_or(utils::find_common_prefix_of_sorted_vec(")]
     if not ctx.check(len(pfx) == 1, rule, fn, "prefix", "one common-prefix length"):
         return
-    d = [sh for sh, _, _ in q.def_shapes(b, pfx[0], roles)]
+    d = [q.value_shape(b, pfx[0], roles)]
     ctx.check(d == ["Option::map_or(utils::find_common_prefix_of_sorted_vec(var:Vec<Cow<[&str]>>),0,%s(slice::len(p1)))" % LAM], rule, fn, "prefix:def",
               "the prefix length is the length of the common prefix found by the helper (0 when there is none), with no arithmetic on it", detail=str(d))
     r = dict(roles)
     r[pfx[0]] = "prefix"
-    takes = [q.shape(b.expr_of_call(t), r) for bi, t in q.calls_to(b, "Iterator::take")]
-    ctx.check(len(takes) == 1 and q.wild("Iterator::take(repeat::repeat(*),Sub(Vec::len(base_path),prefix))", takes[0]), rule, fn, "climb", "one '..' per base-directory component below the common prefix", detail=str(takes))
+    takes = [q.shape(b.expr_of_call(t), r) for bi, t in b.calls() if q.nice(t.get("callee")) in ("Iterator::take", "vec::from_elem")]
+    ctx.check(len(takes) == 1 and (q.wild("Iterator::take(repeat::repeat(*),Sub(Vec::len(base_path),prefix))", takes[0]) or q.wild("vec::from_elem(*,Sub(Vec::len(base_path),prefix))", takes[0])), rule, fn, "climb",
+              "one '..' per base-directory component below the common prefix", detail=str(takes))
     tails = [q.shape(b.expr_of_call(t), r) for bi, t in q.calls_to(b, "Index::index") if "RangeFull" not in q.shape(b.expr_of_call(t), r) and not q.shape(b.expr_of_call(t), r).startswith("array(")]
     ctx.check(tails == ["target_path[RangeFrom{start:prefix}]"], rule, fn, "tail", "followed by the target's components after that same prefix", detail=str(tails))
     ext = [q.shape(b.expr_of_call(t), r) for bi, t in q.calls_to(b, "Vec::<T, A>::extend_from_slice")]
@@ -92,7 +93,7 @@ def same_prefix(ctx, rule):
             same = [tb for v, tb in t["arms"] if v == 0]
             upd = [site for l in sorted(h.var_names) for sh, site, _ in q.def_shapes(h, l, {}) if sh == "Option::Some{0:%s.0}" % ENUM]
             ctx.check(bool(same) and len(upd) == 1 and (upd[0][0] == same[0] or h.dominates(same[0], upd[0][0])), rule, h.path, "extend-on-match", "the prefix is extended exactly on a matching component")
-    mins = [q.shape(h.expr_of_call(t)) for bi, t in h.calls() if q.nice(t.get("callee")) in ("PartialOrd::lt", "Ord::min", "cmp::min")]
+    mins = [q.shape(h.expr_of_call(t)) for bi, t in h.calls() if q.nice(t.get("callee")) in ("PartialOrd::lt", "PartialOrd::le", "Ord::min", "cmp::min")]
     ctx.check(len(mins) == 1, rule, h.path, "min-over-lists", "the shortest agreement over all lists is kept", detail=str(mins))
 
 
@@ -100,7 +101,7 @@ def separators(ctx, rule):
     b = ctx.body(MRP)
     fn = b.path
     joins = [(bi, b.expr_of_call(t)) for bi, t in q.calls_to(b, "slice::join")]
-    reps = [b.expr_of_call(t) for bi, t in b.calls() if q.nice(t.get("callee")) == "repeat::repeat"]
+    reps = [b.expr_of_call(t) for bi, t in b.calls() if q.nice(t.get("callee")) in ("repeat::repeat", "vec::from_elem")]  # repeat(x).take(n).collect() or vec![x; n]
     if not ctx.check(len(joins) == 1 and len(reps) == 1, rule, fn, "join+repeat", "the result is one join over climbs and components"):
         return
     def const_str(e):
